@@ -399,3 +399,39 @@ def pointers_append_only(chk, repo, rid, floor=2):
         chk.ob(rid, f"{g.name}: pointer lists are only appended to", g.where, not bad and n_app >= 1,
                f"writes to self.pointers other than appends: {bad or 'no append found'}: pointers of transcripts known from earlier GVF files can be replaced "
                "(records of the earlier files are lost for those transcripts)", key=q + '::append-only', fn=g.qual)
+
+
+# intentional `a=b` hand-overs, confirmed by reading (one line of reason each)
+KWNAME_ALLOW = {
+    ('dna.DNASeqRecord:DNASeqRecord.find_cleave_positions_within', 'start', 'end'),    # the search to the right of the window starts at its end
+    ('dna.DNASeqRecord:DNASeqRecord.find_cleave_positions_within', 'end', 'start'),    # the search to the left of the window ends at its start
+    ('svgraph.PVGNodeCollapser:PVGNodeCollapser.should_keep_first', 'first', 'second'),   # symmetric test evaluated with the roles swapped
+    ('svgraph.PVGNodeCollapser:PVGNodeCollapser.should_keep_first', 'second', 'first'),
+    ('svgraph.TVGNodeCollapser:TVGNodeCollapser.should_keep_first', 'first', 'second'),
+    ('svgraph.TVGNodeCollapser:TVGNodeCollapser.should_keep_first', 'second', 'first'),
+    # the traversal only requires variants when EXTERNAL variants are required (callAltTranslation adds SECT / W2F afterwards); the final
+    # get_peptide_sequences() applies check_variants itself
+    ('svgraph.PeptideVariantGraph:PeptideVariantGraph.call_variant_peptides', 'check_variants', 'check_external_variants'),
+}
+
+
+def kwname(chk, repo, rid, mod_prefixes, floor=1, allow=KWNAME_ALLOW):
+    """R-THREAD by name inside the library: a keyword argument `k=v` whose value is a parameter of the enclosing function,
+    where `k` is the name of ANOTHER parameter of that same function, is cross-wired (`w2f=truncate_sec`)."""
+    chk.rule(rid, 'R-THREAD: parameters handed on as keyword arguments keep their name (no `a=b` between two parameters of the same function)', floor)
+    n = 0
+    for f in repo.functions.values():
+        if not any(f.module.modname == m or f.module.modname.startswith(m + '.') for m in mod_prefixes):
+            continue
+        params = set(f.params()) - {'self', 'cls'}
+        if len(params) < 2:
+            continue
+        for c in [x for x in walk_no_nested(f.node) if isinstance(x, ast.Call)]:
+            for k in c.keywords:
+                if k.arg and isinstance(k.value, ast.Name) and k.value.id in params and k.arg in params:
+                    n += 1
+                    ok = k.arg == k.value.id or (f.qual, k.arg, k.value.id) in allow
+                    chk.ob(rid, f"{f.qual.split(':')[1]}: {call_name(c)}({k.arg}={k.value.id})", repo.loc(f, c), ok,
+                           f"{call_name(c)}({k.arg}={k.value.id}): the parameter '{k.value.id}' is passed where '{k.arg}' (another parameter of {f.name}) is expected",
+                           key=f"{f.qual}::kwname::{call_name(c)}::{k.arg}", fn=f.qual)
+    chk.call_sites += n
